@@ -146,6 +146,53 @@ fn config_args(config: usize, n_samples: usize) -> Vec<String> {
     }
 }
 
+/// One run of `create` on `cs` (by path, three threads) in environment `e` of `cli::ENVIRONMENTS`,
+/// confined to CPU 0 (`e` = len) or started in a directory that no longer exists (`e` = len + 1).
+fn eval_environment(set_name: &str, cs: &CallSet, config: usize, e: usize, c: Container, canon: &Out, scratch: &Scratch) -> Option<(String, String, J)> {
+    let bytes = render(cs, c, &Layout::Fixed(4096));
+    let path = scratch.file(c.suffix(), &bytes);
+    let mut args: Vec<String> = vec!["create".into(), "--threads".into(), "3".into()];
+    args.extend(config_args(config, cs.samples.len()));
+    args.push(path.to_str().unwrap().to_string());
+    let a: Vec<&str> = args.iter().map(|s| s.as_str()).collect();
+    let n_env = crate::cli::ENVIRONMENTS.len();
+    let (name, o) = if e < n_env {
+        let (name, env) = crate::cli::ENVIRONMENTS[e];
+        (name.to_string(), crate::cli::run_sfs_env(&a, Stdin::Null, scratch, env, &crate::cli::Limits::default()))
+    } else if e == n_env {
+        ("one-cpu".to_string(), crate::cli::run_sfs_env(&a, Stdin::Null, scratch, &[("__SFSMC_ONE_CPU", "1")], &crate::cli::Limits::default()))
+    } else {
+        ("deleted-working-directory".to_string(), crate::cli::run_sfs_env(&a, Stdin::Null, scratch, &[("__SFSMC_DELETED_CWD", "1")], &crate::cli::Limits::default()))
+    };
+    let _ = std::fs::remove_file(&path);
+    if o.code == canon.code && o.signal == canon.signal && o.stdout == canon.stdout {
+        return None;
+    }
+    Some((
+        format!("C12|cli|depends-on-environment|{name}|{}", c.name()),
+        format!("{set_name} as {} (config {config}) under {name}: {} stdout {:?} stderr {:?}; canonical: {} stdout {:?}", c.name(), o.status_str(), &o.stdout_str()[..o.stdout.len().min(200)], o.stderr_str().trim(), canon.status_str(), &canon.stdout_str()[..canon.stdout.len().min(200)]),
+        J::obj([("kind", J::s("c12-environment")), ("call_set", J::s(set_name)), ("config", J::u(config)), ("environment", J::u(e)), ("container", J::s(c.name()))]),
+    ))
+}
+
+/// The file name as bytes: `\xe9` in the listed name is the single byte 0xE9.
+fn name_on_disk(listed: &str) -> std::ffi::OsString {
+    use std::os::unix::ffi::OsStringExt;
+    let mut out = Vec::new();
+    let b = listed.as_bytes();
+    let mut i = 0;
+    while i < b.len() {
+        if b[i..].starts_with(b"\\xe9") {
+            out.push(0xe9);
+            i += 4;
+        } else {
+            out.push(b[i]);
+            i += 1;
+        }
+    }
+    std::ffi::OsString::from_vec(out)
+}
+
 fn run_variant(v: &Variant, bytes: &[u8], n_samples: usize, scratch: &Scratch) -> Out {
     let mut args: Vec<String> = vec!["create".into(), "--threads".into(), v.threads.to_string()];
     args.extend(config_args(v.config, n_samples));
@@ -334,6 +381,32 @@ pub fn run(tier: Tier) -> i32 {
         exhaustive: true,
         extra: vec![("schedules_controlled".into(), J::Bool(false))],
     });
+    // the environment: what is logged, colours, the locale, temporary directories and the CPUs the
+    // process may use are no call data either
+    {
+        let mut ej: Vec<(usize, usize, usize, Container)> = Vec::new();
+        for si in 0..sets.len() - 1 {
+            for config in [0usize, 1, 3, 4] {
+                for e in 0..crate::cli::ENVIRONMENTS.len() + 2 {
+                    for c in [Container::Vcf, Container::Bcf] {
+                        ej.push((si, config, e, c));
+                    }
+                }
+            }
+        }
+        let res = par_map(ej.len(), |i| eval_environment(sets[ej[i].0].0, sets[ej[i].0].1, ej[i].1, ej[i].2, ej[i].3, &canon[ej[i].0][ej[i].1], &scratch));
+        for v in res.into_iter().flatten() {
+            rep.violation(v.0, v.1, v.2);
+        }
+        rep.part(Part {
+            name: "cli: the environment of the process".into(),
+            evaluations: ej.len() as u64,
+            nontrivial: ej.len() as u64,
+            note: format!("{} small call sets x 4 option sets x {{vcf, bcf}} (path, --threads 3) x {} environments (RUST_LOG, RUST_BACKTRACE, locale, colour and terminal variables, TMPDIR / HOME pointing nowhere, thread-pool variables; the process confined to one CPU; the current directory deleted while the input is named by an absolute path): stdout and exit status as in the canonical run", sets.len() - 1, crate::cli::ENVIRONMENTS.len() + 2),
+            exhaustive: true,
+            extra: vec![],
+        });
+    }
     rep.sample(J::obj([
         ("call_set", J::s("missing-multicontig-5-samples")),
         ("container", J::s("bcf")),
@@ -400,7 +473,8 @@ pub fn run(tier: Tier) -> i32 {
     }
 
     // file names: the container is decided by content, whatever the path is called
-    const NAMES: [&str; 10] = ["in", "in.dat", "in.vcf", "in.vcf.gz", "in.bcf", "in.gz", "in.bgz", "IN.VCF", "in.txt", "in.bcf.vcf"];
+    // (`\xe9` stands for the single byte 0xE9: a Latin-1 name, not valid UTF-8)
+    const NAMES: [&str; 14] = ["in", "in.dat", "in.vcf", "in.vcf.gz", "in.bcf", "in.gz", "in.bgz", "IN.VCF", "in.txt", "in.bcf.vcf", "r\\xe9gion.vcf", "r\u{e9}gion.bcf", "two words.vcf", "\\xe9"];
     let mut nj: Vec<(usize, Container, usize, usize)> = Vec::new();
     for si in 0..sets.len() - 1 {
         for c in Container::all() {
@@ -417,10 +491,10 @@ pub fn run(tier: Tier) -> i32 {
         let bytes = render(cs, c, &Layout::Fixed(64));
         let dir = scratch.path(".d");
         std::fs::create_dir_all(&dir).expect("scratch dir");
-        let path = dir.join(NAMES[ni]);
+        let path = dir.join(name_on_disk(NAMES[ni]));
         std::fs::write(&path, &bytes).expect("scratch write");
         let ts = t.to_string();
-        let o = run_sfs(&["create", "--threads", &ts, path.to_str().unwrap()], Stdin::Null, &scratch);
+        let o = crate::cli::run_sfs_with_path(&["create", "--threads", &ts], &path, &scratch);
         let _ = std::fs::remove_dir_all(&dir);
         let can = &canon[si][0];
         if o.code == can.code && o.signal == can.signal && o.stdout == can.stdout {
@@ -440,7 +514,7 @@ pub fn run(tier: Tier) -> i32 {
         name: "cli: file names".into(),
         evaluations: nj.len() as u64,
         nontrivial: nj.len() as u64,
-        note: format!("{} small call sets x 4 containers x {} file names (no extension, neutral, matching and misleading extensions) x threads {{1,4}}: identical to the canonical run", sets.len() - 1, NAMES.len()),
+        note: format!("{} small call sets x 4 containers x {} file names (no extension, neutral, matching and misleading extensions, a blank, non-ASCII characters, and names that are not valid UTF-8) x threads {{1,4}}: identical to the canonical run", sets.len() - 1, NAMES.len()),
         exhaustive: true,
         extra: vec![],
     });
@@ -745,6 +819,11 @@ pub fn replay(case: &J) -> Option<Vec<String>> {
         let v = Variant { set: 0, container: Container::Vcf, layout: Layout::Single, stdin: false, threads: 1, config, rep: 0 };
         run_variant(&v, &render(cs, Container::Vcf, &Layout::Single), cs.samples.len(), &scratch)
     };
+    if kind == "c12-environment" {
+        let config = case.get("config")?.as_i64()? as usize;
+        let e = case.get("environment")?.as_i64()? as usize;
+        return Some(eval_environment(&set_name, cs, config, e, container, &canon(config), &scratch).into_iter().map(|(k, w, _)| format!("{k} :: {w}")).collect());
+    }
     let judge = |o: &Out, c: &Out, what: String| -> Vec<String> {
         if o.code == c.code && o.signal == c.signal && o.stdout == c.stdout {
             vec![]
@@ -765,9 +844,9 @@ pub fn replay(case: &J) -> Option<Vec<String>> {
             let t = case.get("threads")?.as_i64()?.to_string();
             let dir = scratch.path(".d");
             std::fs::create_dir_all(&dir).ok()?;
-            let path = dir.join(&name);
+            let path = dir.join(name_on_disk(&name));
             std::fs::write(&path, render(cs, container, &Layout::Fixed(64))).ok()?;
-            let o = run_sfs(&["create", "--threads", &t, path.to_str()?], Stdin::Null, &scratch);
+            let o = crate::cli::run_sfs_with_path(&["create", "--threads", &t], &path, &scratch);
             Some(judge(&o, &canon(0), format!("C12|cli|result-depends-on-file-name :: {set_name} as {cname} named '{name}'")))
         }
         "c12-transport" => {
